@@ -240,6 +240,8 @@ pub enum Stmt {
     Update { table: String, col: usize, set: SetExpr, pred: Pred },
     Delete { table: String, pred: Pred },
     Select { table: String, pred: Pred },
+    AddColumn { table: String, col: ColDef },
+    DropColumn { table: String, col: usize },
     /// Arbitrary text the model expects to fail without effect.
     Bad { sql: String, why: String },
 }
@@ -266,6 +268,8 @@ pub enum Effect {
     Create(TableDef),
     Drop(String),
     AddUnique { table: String, cols: Vec<usize>, name: String },
+    AddColumn { table: String, col: ColDef },
+    DropColumn { table: String, col: usize },
     Insert { table: String, id: u64, row: Vec<Val> },
     Update { table: String, id: u64, row: Vec<Val> },
     Delete { table: String, id: u64 },
@@ -288,9 +292,39 @@ impl State {
                     t.def.index_names.push(name.clone());
                 }
             }
+            Effect::AddColumn { table, col } => {
+                if let Some(t) = self.tables.get_mut(table) {
+                    let fill = col.default.clone().unwrap_or(Val::Null);
+                    t.def.cols.push(col.clone());
+                    for r in t.rows.values_mut() {
+                        r.push(fill.clone());
+                    }
+                }
+            }
+            Effect::DropColumn { table, col } => {
+                if let Some(t) = self.tables.get_mut(table) {
+                    if *col < t.def.cols.len() {
+                        t.def.cols.remove(*col);
+                        for r in t.rows.values_mut() {
+                            if *col < r.len() {
+                                r.remove(*col);
+                            }
+                        }
+                        for u in t.def.uniques.iter_mut() {
+                            for c in u.iter_mut() {
+                                if *c > *col {
+                                    *c -= 1;
+                                }
+                            }
+                        }
+                    }
+                }
+            }
             Effect::Insert { table, id, row } | Effect::Update { table, id, row } => {
                 if let Some(t) = self.tables.get_mut(table) {
-                    t.rows.insert(*id, row.clone());
+                    if row.len() == t.def.cols.len() {
+                        t.rows.insert(*id, row.clone());
+                    }
                 }
             }
             Effect::Delete { table, id } => {
@@ -374,6 +408,13 @@ pub fn stmt_sql(s: &Stmt, view: &State) -> String {
         }
         Stmt::Delete { table, pred } => format!("DELETE FROM {table}{}", pred.where_sql(def_of(table))),
         Stmt::Select { table, pred } => format!("SELECT * FROM {table}{}", pred.where_sql(def_of(table))),
+        Stmt::AddColumn { table, col } => format!(
+            "ALTER TABLE {table} ADD COLUMN {} {}{}",
+            col.name,
+            col.ty.sql(),
+            col.default.as_ref().map(|d| format!(" DEFAULT {}", d.sql())).unwrap_or_default()
+        ),
+        Stmt::DropColumn { table, col } => format!("ALTER TABLE {table} DROP COLUMN {}", def_of(table).cols.get(*col).map(|c| c.name.clone()).unwrap_or_else(|| format!("c{col}"))),
         Stmt::Bad { sql, .. } => sql.clone(),
     }
 }
@@ -552,6 +593,28 @@ pub fn exec_model(view: &mut State, next_row_id: &mut u64, s: &Stmt) -> (MOut, V
         Stmt::Select { table, pred } => match view.tables.get(table) {
             None => MOut::Err(ErrClass::UnknownObject, format!("no table {table}")),
             Some(t) => MOut::Rows(t.rows.values().filter(|r| pred.eval(r) == Some(true)).cloned().collect()),
+        },
+        Stmt::AddColumn { table, col } => match view.tables.get(table) {
+            None => MOut::Err(ErrClass::UnknownObject, format!("no table {table}")),
+            Some(t) => {
+                if t.def.cols.iter().any(|c| c.name == col.name) {
+                    MOut::Err(ErrClass::AlreadyExists, "column exists".into())
+                } else {
+                    effects.push(Effect::AddColumn { table: table.clone(), col: col.clone() });
+                    MOut::Ddl
+                }
+            }
+        },
+        Stmt::DropColumn { table, col } => match view.tables.get(table) {
+            None => MOut::Err(ErrClass::UnknownObject, format!("no table {table}")),
+            Some(t) => {
+                if *col >= t.def.cols.len() || t.def.cols.len() <= 1 || t.def.uniques.iter().any(|u| u.contains(col)) {
+                    MOut::Err(ErrClass::Other, "cannot drop this column".into())
+                } else {
+                    effects.push(Effect::DropColumn { table: table.clone(), col: *col });
+                    MOut::Ddl
+                }
+            }
         },
         Stmt::Bad { why, .. } => MOut::Err(ErrClass::Other, why.clone()),
     };
